@@ -647,6 +647,8 @@ def lines_of(forest, sy, depth, acc):
         for m in el['mentions']:
             if m[0] == 'attr' and m[1] not in [a[0] for a in attrs]: attrs.append((m[1], m[2]))
         name = el['name']
+        if not name:      # text-only node: its text on a line of its own
+            acc.append((depth, ('| ' if sy in ('pug', 'slim') else '') + el['text'])); continue
         head = ('%' if sy == 'haml' else '') + name if not (name == 'div' and (ids or cls)) else ''
         done = set()
         for m in el['mentions']:          # id / class shorthands in the order they were first written
